@@ -3980,6 +3980,13 @@ class SFTPClient:
                     if filename in (b'.', b'..'):
                         continue
 
+                    # Don't let a name supplied by the remote system
+                    # escape the directory being copied into
+                    if not filename or b'/' in filename or \
+                            (sys.platform == 'win32' and b'\\' in filename):
+                        raise SFTPBadMessage('Invalid file name in '
+                                             'directory listing')
+
                     srcfile = posixpath.join(srcpath, filename)
                     dstfile = posixpath.join(dstpath, filename)
 
